@@ -69,10 +69,17 @@ func genProgram(r *core.Rand) *elfref.Desc {
 		n = r.Range(12, 64)
 	}
 	base := uint64(0x10000 + 4*r.Intn(4096))
-	prog := rvref.RandomProgram(r, base, n, rvref.ProgOpts{
-		Regs: r.Range(2, 5), JumpPct: r.Intn(14), MemPct: r.Intn(35), GapPct: r.Intn(10),
+	o := rvref.ProgOpts{
+		Regs: r.Range(2, 5), JumpPct: r.Intn(14), MemPct: r.Intn(35), GapPct: r.Intn(10) + r.Intn(3)/2*r.Range(5, 20),
 		CSRPct: r.Intn(3), SysPct: r.Intn(3), PtrRegs: []int{5, 6},
-	})
+	}
+	if r.Chance(1, 4) {
+		// many small blocks (sizes 1-4, several of equal length): block
+		// moves that shift other blocks by different amounts
+		n = r.Range(6, 24)
+		o.GapPct, o.JumpPct = r.Range(25, 50), 0
+	}
+	prog := rvref.RandomProgram(r, base, n, o)
 	entry := prog[r.Intn(len(prog))].Addr
 	var data []byte
 	if r.Chance(2, 3) {
@@ -93,6 +100,7 @@ type policy struct {
 	// swarm knobs
 	pResize, pStream, pGarbage int
 	quitting                  bool
+	lastBlockMove             bool
 	afterEnd                  int
 }
 
@@ -115,6 +123,8 @@ func (p *policy) num() string {
 		return fmt.Sprint(-1 - r.Intn(5))
 	case 7:
 		return []string{"x", "1.5", "0x10", "", "１", "1e3", "+2"}[r.Intn(7)]
+	case 8: // a decimal line number written with leading zeros
+		return strings.Repeat("0", r.Range(1, 3)) + fmt.Sprint(r.Intn(p.nLines+1))
 	default:
 		return fmt.Sprint(r.Intn(p.nLines + 1))
 	}
@@ -203,7 +213,21 @@ func (p *policy) garbage() string {
 
 func (p *policy) disCommand() string {
 	r := p.r
-	w := []int{14, 10, 8, 4, 10, 6, 4, 3, 3, 6}
+	if p.lastBlockMove {
+		// right after a block move: commands that depend on where blocks
+		// start in the listing
+		p.lastBlockMove = false
+		switch r.Intn(5) {
+		case 0:
+			return "entry"
+		case 1, 2:
+			f := r.Intn(p.nLines)
+			return spaced(r, "move", fmt.Sprint(f), fmt.Sprint(f+r.Range(-2, 2)))
+		case 3:
+			return spaced(r, "bounds", fmt.Sprint(r.Intn(p.nLines)))
+		}
+	}
+	w := []int{14, 10, 8, 4, 10, 12, 4, 3, 3, 8}
 	switch p.prop {
 	case "C23":
 		w = []int{6, 4, 3, 2, 2, 30, 6, 12, 1, 2}
@@ -247,6 +271,7 @@ func (p *policy) disCommand() string {
 			}
 			if len(hdr) >= 2 {
 				from, to = fmt.Sprint(hdr[r.Intn(len(hdr))]), fmt.Sprint(hdr[r.Intn(len(hdr))])
+				p.lastBlockMove = true
 			}
 		}
 		return spaced(r, pick(r, "move", "mv", "m"), from, to)
@@ -306,6 +331,9 @@ func (p *policy) addressArg() string {
 			"0o17", "0O7", "0x_ff", "0x1_0", "0_7", "0b1_0", "+5", "0x-1", " 5", "1e3", "0x10000000000000000", "0b"+strings.Repeat("1", 65))
 	}
 	var a uint64
+	if r.Chance(1, 25) { // a very long spelling (thousands of leading zeros)
+		return pick(r, "0x", "0X") + strings.Repeat("0", r.Range(4090, 5000)) + fmt.Sprintf("%x", 0x10000+r.Intn(0x20100))
+	}
 	// addresses of memory that is really stored (begin, last byte, inside,
 	// just outside of a stored block of the live memory)
 	if p.s != nil && p.s.stat != nil && r.Chance(1, 2) {
@@ -350,6 +378,54 @@ func (p *policy) addressArg() string {
 	return spellNumber(r, new(big.Int).SetUint64(a), false)
 }
 
+// pointerToTheEdge: when the register being asked for is the base of the
+// memory access of the instruction about to execute, return a pointer that
+// makes that access end exactly at 2^64, wrap around it, or end one byte
+// below (a fault placed inside the operation in flight).
+func (p *policy) pointerToTheEdge(o *Obs) (string, bool) {
+	if o.Reg == "" || p.s == nil || p.s.stat == nil || !strings.HasPrefix(o.Reg, "x") {
+		return "", false
+	}
+	var ip uint64
+	ok := false
+	core.Guard(func() {
+		if ex, have := p.s.stat.Regs.Load(expr.IPKey, 8); have {
+			if c, isC := ex.(expr.Const); isC {
+				for i, b := range c.Bytes() {
+					ip |= uint64(b) << (8 * uint(i))
+				}
+				ok = true
+			}
+		}
+	})
+	if !ok {
+		return "", false
+	}
+	for _, in := range p.s.ld.Instrs {
+		if uint64(in.Addr) != ip || len(in.Bytes) != 4 {
+			continue
+		}
+		w := uint32(in.Bytes[0]) | uint32(in.Bytes[1])<<8 | uint32(in.Bytes[2])<<16 | uint32(in.Bytes[3])<<24
+		if fmt.Sprintf("x%d", (w>>15)&31) != o.Reg {
+			return "", false
+		}
+		var off, width int64
+		switch w & 0x7f {
+		case 0x03: // load
+			off, width = int64(int32(w)>>20), int64(1)<<((w>>12)&3)
+		case 0x23: // store
+			off, width = int64(int32(w&0xfe000000)>>20)|int64((w>>7)&0x1f), int64(1)<<((w>>12)&3)
+		case 0x2f: // atomic
+			off, width = 0, int64(1)<<((w>>12)&3)
+		default:
+			return "", false
+		}
+		delta := []int64{0, 0, 1, -1, -width}[p.r.Intn(5)]
+		return spellNumber(p.r, big.NewInt(-(width+off)+delta), true), true
+	}
+	return "", false
+}
+
 func (p *policy) valueAnswer(w int) string {
 	r := p.r
 	if r.Chance(1, 7) {
@@ -357,7 +433,14 @@ func (p *policy) valueAnswer(w int) string {
 	}
 	var v *big.Int
 	if r.Chance(1, 10) { // a pointer into the last bytes of the address space
+		if r.Bool() { // such that an access of 1/2/4/8 bytes ends exactly at 2^64
+			return spellNumber(r, big.NewInt(int64(-(1<<uint(r.Intn(4)))-r.Intn(2)*r.Range(0, 24))), true)
+		}
 		return spellNumber(r, big.NewInt(int64(-1-r.Intn(40))), true)
+	}
+	if r.Chance(1, 25) { // a very long spelling (thousands of leading zeros)
+		v := new(big.Int).SetBytes(r.Bytes(r.Range(1, w)))
+		return pick(r, "0x", "0X", "-0x") + strings.Repeat("0", r.Range(4090, 5000)) + v.Text(16)
 	}
 	switch r.Intn(6) {
 	case 0:
@@ -426,6 +509,11 @@ func (p *policy) choose(o *Obs) Ev {
 	switch o.Kind {
 	case pValue:
 		// never end the stream inside a value prompt (DESIGN 6.5)
+		if r.Chance(1, 6) {
+			if s, ok := p.pointerToTheEdge(o); ok {
+				return emit(Ev{K: "line", S: s})
+			}
+		}
 		return emit(Ev{K: "line", S: p.valueAnswer(o.Width)})
 	case pAck, pUnknown, pContinuation:
 		if r.Chance(1, 12) {
